@@ -197,11 +197,8 @@ def build_dataclass(term, reg: Registry):
                 strategy_key(tt, reg): make_strategy(st, reg) for tt, st in o[1]
             }
         elif k == "discriminator":
-            from mashumaro.types import Discriminator
-            d = {a: b for a, b in o[1]}
-            cns["discriminator"] = Discriminator(
-                field=d.get("field"), include_subtypes=bool(d.get("include_subtypes", False)),
-                include_supertypes=bool(d.get("include_supertypes", False)))
+            from harness.terms import make_discriminator
+            cns["discriminator"] = make_discriminator(o[1], reg)
         elif k == "classvars":
             for cv, val in o[1]:
                 ns[cv] = concretize_value(val, reg)
